@@ -368,7 +368,55 @@ def check_source(env, src):
 BUDGET = {"quick": 5000, "thorough": 75000}
 
 
-STALL_SECONDS = 45.0  # wall-clock silence of the worker on ONE source (a C-level regex match cannot be interrupted from Python)
+STALL_SECONDS = 45.0  # CPU seconds the worker may burn on ONE source (a C-level regex match cannot be interrupted from Python)
+STALL_WALL_CAP = 900.0  # safety net: silence in wall-clock time, whatever the load of the machine
+
+
+def proc_cpu_seconds(pid):
+    """user + system CPU time of a process (Linux /proc); None when it cannot be read"""
+    import os
+    try:
+        with open(f"/proc/{pid}/stat") as f:
+            parts = f.read().rsplit(")", 1)[1].split()
+        return (int(parts[11]) + int(parts[12])) / float(os.sysconf("SC_CLK_TCK"))
+    except Exception:
+        return None
+
+
+def run_cpu_limited(argv, input_text, cpu_seconds, cwd=None, wall_cap=STALL_WALL_CAP):
+    """run a child with a CPU-time limit (RLIMIT_CPU, independent of the machine's load) -> (status, stdout, stderr);
+    status 'ok' | 'cpu-limit' | 'wall-cap' | 'died:<rc>'"""
+    import resource
+    import subprocess
+
+    def limit():
+        resource.setrlimit(resource.RLIMIT_CPU, (int(cpu_seconds), int(cpu_seconds) + 2))
+
+    p = subprocess.Popen(argv, stdin=subprocess.PIPE, stdout=subprocess.PIPE, stderr=subprocess.PIPE, text=True, cwd=cwd, preexec_fn=limit)
+    try:
+        out, err = p.communicate(input_text, timeout=wall_cap)
+    except subprocess.TimeoutExpired:
+        p.kill()
+        out, err = p.communicate()
+        return "wall-cap", out, err
+    if p.returncode == 0:
+        return "ok", out, err
+    if p.returncode in (-24, -9):  # SIGXCPU / SIGKILL after the hard limit
+        return "cpu-limit", out, err
+    return f"died:{p.returncode}", out, err
+
+
+# sources every run starts with, per configuration: the inputs of the listed findings (so that each of them is observed
+# in every tier) and of the repaired defects (so that a regression of a repair is seen without luck)
+CORPUS = {
+    "default": ["{{ 2 ** 999999999999999999999999999999 }}", "{% macro m(a, a) %}{% endmacro %}", "{{ f(a=1, a=2) }}", "{{ x[1:2, 3] }}",
+                "{% call f(caller=1) %}x{% endcall %}", "{{ 1.5\u0663 }}", "{{ f(__debug__=1) }}", "{% macro m(\ufb01, fi) %}{% endmacro %}",
+                "{{ {[1]: 2}.x }}", "{% print %}{% extends 'base' %}", "{{ f(__\uff44ebug__=1) }}", "{% macro m(\uff43aller) %}{{ caller() }}{% endmacro %}",
+                "{{ 0x" + "f" * 4200 + " > 1 }}", "{{ f({'k': 'a'|attr('upper')}) }}", "{% set x = 1e999 %}{{ x + 1 }}", "{{ 'a' if x }}"],
+    "custom+line": ["<% for x in y %>${ f(_loop_vars=1) }<% endfor %>", "% for x in y\n${ x }\n% endfor\n"],
+    "trim+async": ["{% for x in y %}{{ f(_loop_vars=1) }}{% endfor %}", "{% block b %}{{ f(_block_vars=1) }}{% endblock %}"],
+    "sandbox+ext": ["{% break %}", "{% for x in y %}{% else %}{% continue %}{% endfor %}", "{% trans \ufb01=1, fi=2 %}{{ \ufb01 }}{{ fi }}{% endtrans %}"],
+}
 
 
 def _worker_main(argv):
@@ -381,8 +429,9 @@ def _worker_main(argv):
     rnd = random.Random(f"{seed}:{cfg}")
     g = Gen(rnd, env, cfg)
     out = sys.stdout
+    corpus = CORPUS.get(cfg, [])
     for i in range(n):
-        src = g.source()
+        src = corpus[i] if i < len(corpus) else g.source()
         if i < start:
             continue
         out.write(json.dumps(["S", i, src]) + "\n")
@@ -416,6 +465,7 @@ def fuzz_config(cfg):
             cur = (start, "")
             ended = False
             last = time.time()
+            cpu_last = proc_cpu_seconds(p.pid) or 0.0
             while True:
                 r, _, _ = select.select([fd], [], [], 1.0)
                 if r:
@@ -423,6 +473,7 @@ def fuzz_config(cfg):
                     if not chunk:
                         break
                     last = time.time()
+                    cpu_last = proc_cpu_seconds(p.pid) or cpu_last
                     buf += chunk
                     while b"\n" in buf:
                         line, buf = buf.split(b"\n", 1)
@@ -439,8 +490,10 @@ def fuzz_config(cfg):
                                 found[key] = (cur[1], detail)
                         elif msg[0] == "END":
                             ended = True
-                elif time.time() - last > STALL_SECONDS:
-                    break
+                else:
+                    cpu_now = proc_cpu_seconds(p.pid)
+                    if (cpu_now is not None and cpu_now - cpu_last > STALL_SECONDS) or time.time() - last > STALL_WALL_CAP:
+                        break
             if ended:
                 p.wait()
                 start = n
@@ -452,7 +505,7 @@ def fuzz_config(cfg):
             if rc is None:
                 stalls += 1
                 key = "hang:uninterruptible"
-                detail = f"no result within {STALL_SECONDS:.0f} s (not interruptible: inside the regex engine / C code)"
+                detail = f"no result within {STALL_SECONDS:.0f} s of CPU time (not interruptible: inside the regex engine / C code)"
             else:
                 key = f"worker-died:{rc}"
                 detail = f"the interpreter running the check exited with status {rc}"
@@ -489,13 +542,15 @@ def replay_fuzz(w):
             "cfg, src = json.loads(sys.stdin.read())\n"
             "env = CF.FUZZ_CONFIGS.get(cfg, CF.FUZZ_CONFIGS['default'])()\n"
             "print(json.dumps(CF.check_source(env, src)))\n")
-    try:
-        p = subprocess.run([sys.executable, "-c", code], input=json.dumps([cfg, src]), capture_output=True, text=True, timeout=STALL_SECONDS,
-                           cwd=os.path.dirname(os.path.dirname(os.path.abspath(__file__))))
-    except subprocess.TimeoutExpired:
-        return (True, f"config {cfg}: {src[:120]!r} -> no result within {STALL_SECONDS:.0f} s")
-    if p.returncode != 0:
-        return (True, f"config {cfg}: {src[:120]!r} -> the interpreter exited with status {p.returncode}: {p.stderr[-200:]}")
+    status, out, err = run_cpu_limited([sys.executable, "-c", code], json.dumps([cfg, src]), STALL_SECONDS,
+                                       cwd=os.path.dirname(os.path.dirname(os.path.abspath(__file__))))
+    if status in ("cpu-limit", "wall-cap"):
+        return (True, f"config {cfg}: {src[:120]!r} -> no result within {STALL_SECONDS:.0f} s of CPU time")
+    if status != "ok":
+        return (True, f"config {cfg}: {src[:120]!r} -> the interpreter exited ({status}): {err[-200:]}")
+
+    class p:  # noqa
+        stdout = out
     r = json.loads(p.stdout.strip().splitlines()[-1])
     if r is None:
         return (False, "the source compiles or raises an in-range TemplateSyntaxError")
